@@ -269,7 +269,10 @@ def main():
     for fid, (kf, text) in known_seen.items():
         print(f"KNOWN-FINDING: property={prop} {kf['what']} [{fid}] (e.g. {text[:160]})")
     stale = [f["id"] for f in findings["findings"] if f["property"] == prop and f["id"] not in known_seen]
-    for text, path in new:
+    for n_, (text, path) in enumerate(new):
+        if n_ >= 12:
+            print(f"  ... and {len(new) - 12} more violations (replay files under {REPLAYS})")
+            break
         print(f"  violated: {text[:400]}")
         print(f"VIOLATION property={prop} replay={path}")
     # ------------------------------------------------------------------ evidence
